@@ -7,6 +7,7 @@ import (
 
 	"github.com/iden3/go-iden3-crypto/poseidon"
 	"github.com/iden3/go-merkletree-sql/v2"
+	"github.com/iden3/go-schema-processor/v2/merklize"
 	"github.com/iden3/go-schema-processor/v2/verifiable"
 )
 
@@ -44,6 +45,7 @@ func smtFaults() []smtFault {
 				panic(err)
 			}
 			s.vc, s.c, s.claim = vc2, c2, cl2
+			merklize.SetDocumentLoader(c2.loader()) // the verifier re-derives the claim with the default loader
 			*p = *s.is.ProofSMT(cl2)
 		}},
 		{name: "sibling-changed", apply: func(s *verifySetup, p *verifiable.Iden3SparseMerkleTreeProof, res *resolverCfg, r *Rng) {
